@@ -6,7 +6,7 @@ from .. import gen
 from ..common import Verdict, rng_for, run_shards, seed, tier
 
 PROP = "C03"
-N = {"quick": 6000, "thorough": 150000}
+N = {"quick": 12000, "thorough": 200000}
 
 
 def gen_cases_for(seed_, n):
